@@ -94,21 +94,63 @@ Definition deferred_slots : list str := [
 Definition K (i : nat) : ev := EAttr (nth i known_names []) false [].   (* a parsed, named attribute *)
 Definition U (name : str) (body : bytes) : ev := EAttr name true body.  (* an attribute delivered as raw bytes *)
 Definition Fl := EFlags.
-Definition Df (i : nat) : ev := EDeferred (nth i deferred_slots []) [].
+(* the rows of a table as the harness saw them (labels as the bytecode offsets of the instructions they sit on,
+   strings as a checksum of their modified-UTF-8 bytes), packed into primitive integers:
+     line numbers         start_pc<<16 | line_number
+     local variables      two words: kind<<48 | start_pc<<32 | length<<16 | index ;  cksum(name)<<31 | cksum(descriptor / signature)
+                          (kind 1: the row has a descriptor = LocalVariableTable, 2: a signature = LocalVariableTypeTable)
+     exception table      start_pc<<33 | end_pc<<17 | handler_pc<<1 | (1 if there is a catch type)
+   None = the harness could not place a label; the table is then not compared. *)
+Definition fld (w : int) (sh : Z) (mask : int) : N :=
+  Z.to_N (Uint63.to_Z (Uint63.land (Uint63.lsr w (Uint63.of_Z sh)) mask)).
+Definition m16 : int := 65535%uint63.
+Definition m31 : int := 2147483647%uint63.
+Definition dec_lines (ws : list int) : list row := map (fun w => [fld w 16 m16; fld w 0 m16]) ws.
+Fixpoint dec_vars (ws : list int) : list row :=
+  match ws with
+  | a :: b :: ws' => [fld a 48 m16; fld a 32 m16; fld a 16 m16; fld b 31 m31; fld b 0 m31; fld a 0 m16] :: dec_vars ws'
+  | _ => []
+  end.
+Definition dec_exc (ws : list int) : list row := map (fun w => [fld w 33 m16; fld w 17 m16; fld w 1 m16; fld w 0 1%uint63]) ws.
+Definition WILD : list row := [[65536]].   (* no u16 field has this value *)
+
+(* a table event of the harness: no source = not compared, otherwise one source holding the decoded rows *)
+Definition Df (i : nat) (cells : option (list int)) : ev :=
+  EDeferred (nth i deferred_slots [])
+    (match cells with None => [] | Some ws => [([], if Nat.eqb i 0 then dec_lines ws else dec_vars ws)] end).
 Definition CD := ECodeDeclined [].
-Definition C (ms ml : N) (frames : bool) (es : list ev) : ev := ECode [] ms ml (if frames then [[]] else []) es.
+Definition C (ms ml : N) (frames : bool) (exc : option (list int)) (es : list ev) : ev :=
+  ECode [] ms ml (if frames then [[]] else []) (match exc with None => WILD | Some ws => dec_exc ws end) es.
 Definition R (es : option (list ev)) : ev := ERc [] 0 0 0 es.
 Definition Fd (es : option (list ev)) : ev := EField 0 0 0 0 es.
 Definition M (es : option (list ev)) : ev := EMethod 0 0 0 0 es.
 
+(* the model's rows in the harness' vocabulary: a pool index of a string becomes the checksum of the string,
+   the attribute a local-variable row came from becomes its kind, a catch type becomes "is there one" *)
+Definition cksum (bs : bytes) : N := fold_left (fun a b => (a * 31 + b + 1) mod 2147483648) bs 7.
+Definition ck_utf8 (p : pool) (i : N) : N := match pool_utf8 p i with Some u => cksum u | None => 2147483648 end.
+Definition LVT : str := [76;111;99;97;108;86;97;114;105;97;98;108;101;84;97;98;108;101].             (* LocalVariableTable *)
+Definition LVTT : str := [76;111;99;97;108;86;97;114;105;97;98;108;101;84;121;112;101;84;97;98;108;101]. (* LocalVariableTypeTable *)
+Definition kind_of (name : str) : N := if str_eqb name LVT then 1 else if str_eqb name LVTT then 2 else 0.
+Definition norm_table (p : pool) (slot : str) (srcs : list (str * list row)) : list row :=
+  if str_eqb slot (nth 0 deferred_slots []) then map snd (flat_rows srcs)
+  else map (fun x => match snd x with
+                     | [st; len; ni; di; idx] => [kind_of (fst x); st; len; ck_utf8 p ni; ck_utf8 p di; idx]
+                     | r => r
+                     end) (flat_rows srcs).
+Definition norm_exc (xr : list row) : list row :=
+  map (fun r => match r with [a; b; h; c] => [a; b; h; if c =? 0 then 0 else 1] | _ => r end) xr.
+Definition rows_eqb : list row -> list row -> bool := list_eqb (list_eqb N.eqb).
+
 (* equality of traces up to what the implementation cannot report: pool indices of member names,
-   access flags, the bytes of bodies that the visitor receives parsed, and which attribute a row
-   of a deferred table / a frame came from (only whether there are any) *)
-Fixpoint ev_eqb (a b : ev) : bool :=
+   access flags, the bytes of bodies that the visitor receives parsed, and which attributes the rows
+   of a deferred table were grouped in / a frame came from.  The ROWS of the line-number and
+   local-variable tables and of the exception table are compared value by value, in order. *)
+Fixpoint ev_eqb (p : pool) (a b : ev) : bool :=
   let fix l_eqb (x y : list ev) : bool :=
     match x, y with
     | [], [] => true
-    | e :: x', f :: y' => ev_eqb e f && l_eqb x' y'
+    | e :: x', f :: y' => ev_eqb p e f && l_eqb x' y'
     | _, _ => false
     end in
   let o_eqb (x y : option (list ev)) : bool :=
@@ -120,10 +162,12 @@ Fixpoint ev_eqb (a b : ev) : bool :=
   match a, b with
   | EAttr n r p, EAttr n' r' p' => str_eqb n n' && Bool.eqb r r' && (if r then str_eqb p p' else true)
   | EFlags d s, EFlags d' s' => Bool.eqb d d' && Bool.eqb s s'
-  | EDeferred x _, EDeferred y _ => str_eqb x y
+  | EDeferred x srcs, EDeferred y hs =>
+      str_eqb x y && match hs with [] => true | h :: _ => rows_eqb (norm_table p x srcs) (snd h) end
   | ECodeDeclined _, ECodeDeclined _ => true
-  | ECode _ ms ml f es, ECode _ ms' ml' f' es' =>
-      N.eqb ms ms' && N.eqb ml ml' && Bool.eqb (match f with [] => false | _ => true end) (match f' with [] => false | _ => true end) && l_eqb es es'
+  | ECode _ ms ml f xr es, ECode _ ms' ml' f' xr' es' =>
+      N.eqb ms ms' && N.eqb ml ml' && Bool.eqb (match f with [] => false | _ => true end) (match f' with [] => false | _ => true end)
+      && (rows_eqb xr' WILD || rows_eqb (norm_exc xr) xr') && l_eqb es es'
   | ERc _ _ _ _ es, ERc _ _ _ _ es' => o_eqb es es'
   | EField _ _ _ _ es, EField _ _ _ _ es' => o_eqb es es'
   | EMethod _ _ _ _ es, EMethod _ _ _ _ es' => o_eqb es es'
@@ -188,7 +232,8 @@ Definition norm (e : ev) : ev :=
   | e => e
   end.
 
-Definition trace_eqb (a b : option (list ev)) : bool := opt_eqb (list_eqb ev_eqb) (option_map (map norm) a) b.
+Definition trace_eqb (p : pool) (a b : option (list ev)) : bool := opt_eqb (list_eqb (ev_eqb p)) (option_map (map norm) a) b.
+Definition pool_at (s : bytes) : pool := match read_header s with Ok (h, _) => h_pool h | Err => [] end.
 
 (* one configuration: a visitor per successive read, and per read what the implementation
    answered: Ok (trace, stream position after the read) — the list stops after the first Err *)
@@ -201,31 +246,32 @@ Inductive case :=
    real ClassFile::accept delivered to the recording visitor *)
 | CReplay (total : N) (words : list int) (tree_ok rebuilt_equal : bool) (runs : list (vdesc * option (list ev))).
 
-Fixpoint model_reads (total : nat) (ds : list vdesc) (s : bytes) : answer :=
+(* the model reads the stream with the visitors [ds]; every answer is compared with the implementation's (each
+   class with its own constant pool: the rows of the local-variable tables name their strings by pool index) *)
+Fixpoint reads_agree (total : nat) (ds : list vdesc) (s : bytes) (ans : answer) : bool :=
   match ds with
-  | [] => []
+  | [] => match ans with [] => true | _ => false end
   | d :: ds' =>
-    match read_class g_len tables (visitor_of d) s with
-    | Err => [Err]
-    | Ok (t, s1) => Ok (t, N.of_nat (total - length s1)) :: model_reads total ds' s1
+    match read_class g_len tables (visitor_of d) s, ans with
+    | Err, [Err] => true
+    | Ok (t, s1), Ok (t', pos) :: ans' =>
+        trace_eqb (pool_at s) t t' && N.eqb (N.of_nat (total - length s1)) pos && reads_agree total ds' s1 ans'
+    | _, _ => false
     end
   end.
-
-Definition answer_eqb (a b : answer) : bool :=
-  list_eqb (res_eqb (pair_eqb trace_eqb N.eqb)) a b.
 
 (* ---------- equality of trees (to evaluate `rebuild` on the model side) ---------- *)
 Definition sval_eqb (a b : sval) : bool :=
   match a, b with
   | VBody x, VBody y => str_eqb x y
-  | VSrcs x, VSrcs y => list_eqb str_eqb x y
+  | VRows x, VRows y => list_eqb (pair_eqb str_eqb (list_eqb N.eqb)) x y
   | _, _ => false
   end.
 Definition item_eqb {K} (keqb : K -> K -> bool) (a b : titem K) : bool :=
   opt_eqb (pair_eqb Bool.eqb Bool.eqb) (it_flags a) (it_flags b)
   && list_eqb (pair_eqb str_eqb sval_eqb) (it_slots a) (it_slots b)
   && list_eqb (pair_eqb str_eqb str_eqb) (it_unknown a) (it_unknown b)
-  && opt_eqb (pair_eqb (pair_eqb (pair_eqb N.eqb N.eqb) (list_eqb str_eqb)) keqb) (it_code a) (it_code b)
+  && opt_eqb (pair_eqb (pair_eqb (pair_eqb (pair_eqb N.eqb N.eqb) (list_eqb str_eqb)) rows_eqb) keqb) (it_code a) (it_code b)
   && list_eqb (pair_eqb (pair_eqb N.eqb N.eqb) keqb) (it_rcs a) (it_rcs b).
 Definition item0_eqb : titem unit -> titem unit -> bool := item_eqb (fun _ _ => true).
 Definition hdr_eqb : N * N * N -> N * N * N -> bool := pair_eqb (pair_eqb N.eqb N.eqb) N.eqb.
@@ -241,7 +287,7 @@ Definition check (c : case) : bool :=
       Nat.eqb (length s) (N.to_nat total)
       (* the stream lies in the domain of the theorems: a sequence of encodings of well-formed class structures *)
       && stream_wf tables 8 s
-      && forallb (fun r => answer_eqb (model_reads (N.to_nat total) (fst r) s) (snd r)) runs
+      && forallb (fun r => reads_agree (N.to_nat total) (fst r) s (snd r)) runs
   | CReplay total words tree_ok rebuilt_equal runs =>
       let s := unpack (N.to_nat total) words in
       Nat.eqb (length s) (N.to_nat total)
@@ -253,7 +299,7 @@ Definition check (c : case) : bool :=
              | Ok t =>
                  tree_ok
                  (* ... replaying into every recorded visitor gives the recorded trace, in accept()'s order ... *)
-                 && forallb (fun r => trace_eqb (accept_class tables accept_tables_gen (visitor_of (fst r)) t) (snd r)) runs
+                 && forallb (fun r => trace_eqb (pool_at s) (accept_class tables accept_tables_gen (visitor_of (fst r)) t) (snd r)) runs
                  (* ... and replaying into the tree builder reproduces the tree, in the model and in duke *)
                  && rebuilt_equal
                  && match build false tables accept_tables_gen (accept_class tables accept_tables_gen (v_full tables) t) with
